@@ -1821,8 +1821,9 @@ func (_uintNode) AsBytes() ([]byte, error) {
 func (_uintNode) AsLink() (datamodel.Link, error) {
 	return mixins.Int{TypeName: "int"}.AsLink()
 }
-func (_uintNode) Prototype() datamodel.NodePrototype {
-	return basicnode.Prototype__Int{}
+func (tu *_uintNode) Prototype() datamodel.NodePrototype {
+	// the node's own binding, like every other bindnode node (a plain int builder cannot hold what this node holds)
+	return &_prototype{cfg: tu.cfg, schemaType: tu.schemaType, goType: tu.val.Type()}
 }
 
 // we need this for _uintNode#Representation() so we don't return a TypeNode
@@ -1898,6 +1899,6 @@ func (_uintNodeRepr) AsBytes() ([]byte, error) {
 func (_uintNodeRepr) AsLink() (datamodel.Link, error) {
 	return mixins.Int{TypeName: "int"}.AsLink()
 }
-func (_uintNodeRepr) Prototype() datamodel.NodePrototype {
-	return basicnode.Prototype__Int{}
+func (tu *_uintNodeRepr) Prototype() datamodel.NodePrototype {
+	return (*_prototypeRepr)(&_prototype{cfg: tu.cfg, schemaType: tu.schemaType, goType: tu.val.Type()})
 }
